@@ -203,3 +203,22 @@ func ByteFills() []string {
 	}
 	return out
 }
+
+// Spare returns a copy of s whose backing array continues for n more elements, all set to pad (the shape of
+// a window s[:k] of a longer array: what lies behind the end belongs to the caller), and a function that
+// reports whether those elements still hold pad.
+func Spare[T comparable](s []T, pad T, n int) ([]T, func() bool) {
+	b := make([]T, len(s)+n)
+	copy(b, s)
+	for i := len(s); i < len(b); i++ {
+		b[i] = pad
+	}
+	return b[:len(s)], func() bool {
+		for i := len(s); i < len(b); i++ {
+			if b[i] != pad {
+				return false
+			}
+		}
+		return true
+	}
+}
